@@ -61,7 +61,7 @@ def run(ctx: Context, col) -> None:
     if g1 is not None and g1 != S("GAIN") and len(assigns) >= 1:
         v = assigns[-1].value
         consts = []
-        for sub in ast.walk(v):
+        for sub in list(ast.walk(v)) + list(ast.walk(fn)):  # the reference index may sit in a temporary / an inlined helper
             if isinstance(sub, ast.Subscript):
                 try:
                     c = ast.literal_eval(sub.slice)
